@@ -55,6 +55,20 @@ def run(ctx: C.Ctx):
         ne = rng.randint(1, ctx.scale(6, 9))
         nf = rng.randint(ne + 1, ne + ctx.scale(6, 10)) if r < 0.8 else rng.randint(1, ne)   # mostly more sensors than modes
         X = [[rng.randint(-6, 6) for _ in range(nf)] for _ in range(ne)]
+        # degenerate training sets: a snapshot recorded twice, a multiple of another one, an all-zero snapshot
+        if ne >= 2 and rng.random() < 0.3:
+            i, j = rng.sample(range(ne), 2)
+            how = rng.choice(["duplicate", "multiple", "zero", "sum"])
+            if how == "duplicate":
+                X[i] = list(X[j])
+            elif how == "multiple":
+                X[i] = [2 * v for v in X[j]]
+            elif how == "zero":
+                X[i] = [0] * nf
+            else:
+                l = rng.randrange(ne)
+                X[i] = [a + b for a, b in zip(X[j], X[l])] if l != i else list(X[j])
+            ctx.count("degenerate_training_set:" + how)
         if basis == "identity":
             nm = None if rng.random() < 0.4 else rng.randint(1, ne)
         elif basis == "svd":
